@@ -221,6 +221,11 @@ theorem rules_pinned :
     liquidMarkerExpr = "env.comment_start_string.replace('{', '')" := by
   refine ⟨rfl, by decide +kernel, by decide +kernel, rfl, rfl, rfl⟩
 
+/-- `LiquidTag.parse` hands its line tokenizer the expression token's own text together with that token
+(`tokenizeLiquid commentStart token.start token.value`): the inner offsets of `liquid_tag_offsets` are
+offsets into the template source only because of this. -/
+theorem liquid_body_is_token_text : liquidTokenizeArgs = ["token_.value", "token=token_"] := rfl
+
 end tables
 
 end LiquidVerif.C20
